@@ -77,7 +77,7 @@ def _strategy(tier):
     ).map(lambda t: {'text': t})
 
 
-LONG_LENGTHS = {'quick': [100, 255, 256, 257, 1000, 1023, 1024, 1025, 2047, 2048, 2049, 4095, 4096, 4097, 5000, 8191, 8192, 8193, 10000, 16385, 20000],
+LONG_LENGTHS = {'quick': [100, 255, 256, 257, 1000, 1023, 1024, 1025, 2047, 2048, 2049, 4095, 4096, 4097, 5000, 8191, 8192, 8193, 10000, 16385, 20000, 32769, 65535, 65536, 65537, 70000],
                 'thorough': [100, 255, 256, 257, 1023, 1024, 1025, 2047, 2048, 2049, 4095, 4096, 4097, 8191, 8192, 8193, 16383, 16384, 16385, 32769, 65535, 65536, 65537, 131073]}
 
 
